@@ -645,7 +645,7 @@ From Coq Require Import Sorted.
 Lemma key_eqb_eq a b : key_eqb a b = true <-> a = b.
 Proof. exact (coord_eqb_eq a b). Qed.
 
-Lemma regions_for_app k a b : regions_for k (a ++ b) = regions_for k a ++ regions_for k b.
+Lemma regions_for_app {R} k (a b : list (list Z * R)) : regions_for k (a ++ b) = regions_for k a ++ regions_for k b.
 Proof. unfold regions_for. rewrite filter_app, map_app. reflexivity. Qed.
 
 Lemma flat_map_ext_in {A B} (f g : A -> list B) l :
@@ -691,13 +691,29 @@ Qed.
 
 Section Plan.
   Context {E : Type}.
+  (* the three key expressions of prepare_read: insertion, membership test, lookup.  The plan is right when they
+     are one injective function of (location, byte_range). *)
+  Variables kins kmem kget : keyfn.
+  Hypothesis Kinj : forall l b l' b', kins l b = kins l' b' -> l = l' /\ b = b'.
+  Hypothesis Kmem : forall l b, kmem l b = kins l b.
+  Hypothesis Kget : forall l b, kget l b = kins l b.
+
+  Definition skey (s : sshard E) : list Z := kins (s_loc s) (s_br s).
+
+  Lemma skey_NoDup (shards : list (sshard E)) : NoDup (map s_key shards) -> NoDup (map skey shards).
+  Proof.
+    induction shards as [|s rest IH]; intros ND; cbn in *; [constructor|].
+    inversion ND as [|? ? Hnot ND']; subst. constructor; [|apply IH; exact ND'].
+    intros Hin. apply Hnot. apply in_map_iff in Hin as (s' & Eq & Hs'). apply in_map_iff. exists s'.
+    split; [|exact Hs']. unfold skey in Eq. apply Kinj in Eq as [E1 E2]. unfold s_key. rewrite E1, E2. reflexivity.
+  Qed.
 
   Definition plan_inner (id : Z * box) (shards : list (sshard E)) : list (list Z * (Z * region)) :=
     flat_map (fun s => if overlaps (snd id) (s_box s)
-                       then [(s_key s, (fst id, overlap_region (s_box s) (snd id)))] else []) shards.
+                       then [(skey s, (fst id, overlap_region (s_box s) (snd id)))] else []) shards.
 
   Lemma plan_inner_other k id shards :
-    (forall s, In s shards -> s_key s <> k) -> regions_for k (plan_inner id shards) = [].
+    (forall s, In s shards -> skey s <> k) -> regions_for k (plan_inner id shards) = [].
   Proof.
     induction shards as [|s0 rest IH]; intros H; [reflexivity|].
     unfold plan_inner. cbn [flat_map]. fold (plan_inner id rest).
@@ -707,8 +723,8 @@ Section Plan.
   Qed.
 
   Lemma plan_inner_own id shards s :
-    NoDup (map s_key shards) -> In s shards ->
-    regions_for (s_key s) (plan_inner id shards) =
+    NoDup (map skey shards) -> In s shards ->
+    regions_for (skey s) (plan_inner id shards) =
     if overlaps (snd id) (s_box s) then [(fst id, overlap_region (s_box s) (snd id))] else [].
   Proof.
     induction shards as [|s0 rest IH]; intros ND Hin; [destruct Hin|].
@@ -720,16 +736,16 @@ Section Plan.
         unfold regions_for. cbn. unfold key_eqb. rewrite coord_eqb_refl. reflexivity.
       + intros s' Hs' Eq. apply Hnot. rewrite <- Eq. apply in_map. exact Hs'.
     - rewrite IH by assumption.
-      assert (s_key s0 <> s_key s) as Ne by (intros Eq; apply Hnot; rewrite Eq; apply in_map; exact Hin).
+      assert (skey s0 <> skey s) as Ne by (intros Eq; apply Hnot; rewrite Eq; apply in_map; exact Hin).
       destruct (overlaps (snd id) (s_box s0)); [|reflexivity].
       unfold regions_for at 1. cbn. unfold key_eqb. rewrite coord_eqb_neq by exact Ne. reflexivity.
   Qed.
 
   Lemma regions_for_keyed (shards : list (sshard E)) dboxes s :
     NoDup (map s_key shards) -> In s shards ->
-    regions_for (s_key s) (regions_keyed shards dboxes) = own_regions (s_box s) dboxes.
+    regions_for (skey s) (regions_keyed kins shards dboxes) = own_regions (s_box s) dboxes.
   Proof.
-    intros ND Hin. unfold regions_keyed, own_regions. generalize (indexed dboxes) as ids.
+    intros ND Hin. apply skey_NoDup in ND. unfold regions_keyed, own_regions. generalize (indexed dboxes) as ids.
     induction ids as [|id ids IH]; [reflexivity|]. cbn [flat_map].
     rewrite regions_for_app, IH. f_equal. apply (plan_inner_own id shards s ND Hin).
   Qed.
@@ -742,10 +758,11 @@ Section Plan.
 
   Lemma read_reqs_full_spec (shards : list (sshard E)) dboxes :
     NoDup (map s_key shards) ->
-    read_reqs_full shards dboxes = flat_map (own_req dboxes) (indexed shards).
+    read_reqs_full kins kmem kget shards dboxes = flat_map (own_req dboxes) (indexed shards).
   Proof.
     intros ND. unfold read_reqs_full. apply flat_map_ext_in. intros [j s] Hin. cbn [fst snd].
-    unfold own_req. cbn [fst snd]. rewrite regions_for_keyed; [reflexivity|exact ND|].
+    unfold own_req. cbn [fst snd]. rewrite Kmem, Kget. fold (skey s).
+    rewrite regions_for_keyed; [destruct (own_regions (s_box s) dboxes); reflexivity|exact ND|].
     exact (indexed_from_In_snd _ _ _ _ Hin).
   Qed.
 
@@ -762,7 +779,7 @@ Section Plan.
 
   Lemma read_plan_spec (shards : list (sshard E)) dboxes :
     NoDup (map s_key shards) ->
-    read_plan shards dboxes = map fst (filter (needed dboxes) (indexed shards)).
+    read_plan kins kmem kget shards dboxes = map fst (filter (needed dboxes) (indexed shards)).
   Proof.
     intros ND. unfold read_plan, read_reqs. rewrite map_map. rewrite read_reqs_full_spec by exact ND.
     rewrite (map_ext _ (fun q : Z * sshard E * list (Z * region) => fst (fst q))) by reflexivity.
@@ -778,11 +795,11 @@ Section Plan.
   (* each_needed_shard_read_once *)
   Lemma read_plan_once (shards : list (sshard E)) dboxes :
     NoDup (map s_key shards) ->
-    StronglySorted Z.lt (read_plan shards dboxes) /\
-    (forall j, In j (read_plan shards dboxes) <->
+    StronglySorted Z.lt (read_plan kins kmem kget shards dboxes) /\
+    (forall j, In j (read_plan kins kmem kget shards dboxes) <->
        exists s, 0 <= j /\ nth_error shards (Z.to_nat j) = Some s /\
                  exists db, In db dboxes /\ overlaps db (s_box s) = true) /\
-    (forall j s rs, In (j, s, rs) (read_reqs_full shards dboxes) ->
+    (forall j s rs, In (j, s, rs) (read_reqs_full kins kmem kget shards dboxes) ->
        nth_error shards (Z.to_nat j) = Some s /\ rs = own_regions (s_box s) dboxes).
   Proof.
     intros ND. rewrite read_plan_spec by exact ND. split; [|split].
@@ -878,7 +895,7 @@ Section Plan.
   Qed.
 
   Lemma load_grouped_eq_load (shards : list (sshard E)) (dsts : list (dshard E)) :
-    NoDup (map s_key shards) -> load_grouped shards dsts = load shards dsts.
+    NoDup (map s_key shards) -> load_grouped kins kmem kget shards dsts = load shards dsts.
   Proof.
     intros ND. unfold load_grouped. rewrite read_reqs_full_spec by exact ND.
     rewrite grouped_as_steps by (rewrite !map_length; reflexivity).
@@ -1196,7 +1213,7 @@ Definition ex_grid (rows cols : list (Z * Z)) : list box :=
   flat_map (fun r => map (fun c => mkBox [fst r; fst c] [snd r; snd c]) cols) rows.
 Definition ex_saved_boxes : list box := ex_grid [(0, 2); (2, 3)] [(0, 3); (3, 1); (4, 3)].
 Definition ex_saved : list (sshard Z) :=
-  map (fun ib => mkS (snd ib) [fst ib] (fun c => ex_G (vadd (boff (snd ib)) c))) (indexed ex_saved_boxes).
+  map (fun ib => mkS (snd ib) (fst ib) [] (fun c => ex_G (vadd (boff (snd ib)) c))) (indexed ex_saved_boxes).
 Definition ex_dst_boxes : list box := ex_grid [(0, 1); (1, 3); (4, 1)] [(0, 5); (5, 2)].
 Definition ex_I (c : coord) : Z := - (1 + 9 * nth 0 c 0 + nth 1 c 0).
 Definition ex_dsts : list (dshard Z) := map (fun b => mkD b ex_I) ex_dst_boxes.
